@@ -36,7 +36,7 @@ TraceInit ==
     /\ xobs = [x \in DOMAIN Execs |-> NoX]
     /\ segopen = [f \in {"asyncio", "trio", "threading"} |-> 0]
     /\ marks = [quiescent |-> FALSE, timeouts |-> 0, blocked |-> FALSE, coroafterblock |-> 0, failedatq |-> FALSE, lostatq |-> FALSE,
-                stuckatq |-> FALSE, exfail |-> FALSE, execstuck |-> FALSE, shutstuck |-> FALSE, restartfail |-> FALSE, stall |-> FALSE]
+                stuckatq |-> FALSE, exfail |-> FALSE, execstuck |-> FALSE, adoptstuck |-> FALSE, shutstuck |-> FALSE, restartfail |-> FALSE, stall |-> FALSE]
 
 Step_ == l <= Len(Tr.events) /\ l' = l + 1 /\ UNCHANGED tid
 Keep(S) == UNCHANGED S
@@ -157,6 +157,7 @@ TMark == /\ Ev.e \in {"Quiescent", "Timeout", "Block", "CleanupDone"}
                                           !.stuckatq = (Triggered /\ phase[1] \in {"running", "closing", "closed"}),
                                           !.exfail = (Failed = {} /\ ~StopRequested /\ phase[1] # "running" /\ phase[1] # "idle"),
                                           !.shutstuck = (shut = "called"),
+                                          !.adoptstuck = (\E p \in Payloads : pst[p] = "submitting" /\ adoptret[p] = "-"),
                                           !.execstuck = (\E x \in DOMAIN Execs : xst[x] \in {"called", "started", "finished"})]
                        [] Ev.e = "Timeout" -> [marks EXCEPT !.timeouts = @ + 1,
                                                             !.stall = @ \/ (Ev.what = "command" /\ phase[1] = "running" /\ ~Triggered /\ marks.blocked)]
@@ -196,6 +197,8 @@ ExactlyOnceObserved == ~marks.lostatq
 TerminationObserved == ~marks.stuckatq
 ExecNotAFailureObserved == ~marks.exfail
 ExecReturnsObserved == ~marks.execstuck
+\* "adopt returns None without waiting for the payload"
+AdoptReturnsObserved == ~marks.adoptstuck
 ShutdownReturnsObserved == ~marks.shutstuck
 RestartPossible == ~marks.restartfail
 BlockingDoesNotStall == ~marks.stall
@@ -228,6 +231,7 @@ Monitor ==
     /\ Mon("TerminationObserved", TerminationObserved)
     /\ Mon("ExecNotAFailureObserved", ExecNotAFailureObserved)
     /\ Mon("ExecReturnsObserved", ExecReturnsObserved)
+    /\ Mon("AdoptReturnsObserved", AdoptReturnsObserved)
     /\ Mon("ShutdownReturnsObserved", ShutdownReturnsObserved)
     /\ Mon("RestartPossible", RestartPossible)
     /\ Mon("BlockingDoesNotStall", BlockingDoesNotStall)
